@@ -5,16 +5,16 @@ CONSTANTS
   Wins = {1}
   ConnWin = 1
   MaxStreamss = {1}
-  NDg = 0
+  NDg = 2
   DgCap = 1
-  DgReaders = 1
-  DgWakeAll = TRUE
+  DgReaders = 2
+  DgWakeAll = FALSE
   FinishWakes = TRUE
   AllowReset = FALSE
   AllowStop = FALSE
   AllowLoss = FALSE
-  Extra = {"CN", "HD", "Z1", "WI"}
-  CloseKinds = {"localB", "endpointA", "endpointB"}
+  Extra = {}
+  CloseKinds = {}
   Deviations = {}
 SPECIFICATION Spec
 INVARIANTS TypeOK InOrderExactlyOnce FinAfterLastByte FlowControl NoStrandedFutureStrict NoLostWakeup ClosedTablesEmpty ClosedNobodyPending AbsInv
